@@ -84,6 +84,10 @@ type Item struct {
 	// Alt: the other tag opener. partial / cof / blk: a silent tag <% ... %> (evaluated exactly once, nothing is
 	// inserted); cfor: an output tag <%= contentFor(..) { %> (must still emit nothing).
 	Alt bool `json:"alt,omitempty"`
+	// Via (partial, cof without default block; not with held / re / alt): how the call is written. "let": its result
+	// is bound to a variable which is inserted twice (evaluated once): <% let r = CALL %><%= r %>~<%= r %>. "fn": the call
+	// is the result of a function defined and called on the spot: <% let f = fn() { return CALL } %><%= f() %>.
+	Via string `json:"via,omitempty"`
 }
 
 type Texts struct {
@@ -180,6 +184,15 @@ func validItems(items []Item, depth int) error {
 		if it.Held && it.Alt {
 			return fmt.Errorf("held and alt exclude each other")
 		}
+		switch it.Via {
+		case "":
+		case "let", "fn":
+			if (it.K != "partial" && it.K != "cof") || it.Held || it.Alt || it.Re != nil || it.Def {
+				return fmt.Errorf("via does not combine with held / re / alt / a default block")
+			}
+		default:
+			return fmt.Errorf("unknown via %q", it.Via)
+		}
 		if err := validData(it.Data); err != nil {
 			return err
 		}
@@ -265,6 +278,7 @@ type realPrinter struct {
 	parts map[string]string
 	n     int
 	nc    int
+	nv    int
 }
 
 // opener returns the tag opener of a composition: an output tag, or a silent tag when Alt is set.
@@ -310,6 +324,19 @@ func blkTimes(v string) int {
 	return 1
 }
 
+// via writes a call (without tag delimiters) the way it.Via says; n numbers the helper variable.
+func via(it Item, call string, n int) string {
+	switch it.Via {
+	case "let":
+		v := "rv" + strconv.Itoa(n)
+		return "<% let " + v + " = " + call + " %><%= " + v + " %>~<%= " + v + " %>"
+	case "fn":
+		v := "fv" + strconv.Itoa(n)
+		return "<% let " + v + " = fn() { return " + call + " } %><%= " + v + "() %>"
+	}
+	return opener(it) + call + " %>"
+}
+
 func letText(n, v string) string { return `<% let ` + n + ` = "` + v + `" %>` }
 
 func (p *realPrinter) doc(items []Item) string {
@@ -342,7 +369,8 @@ func (p *realPrinter) doc(items []Item) string {
 				sb.WriteString("<% let " + hv + " = " + d + " %><%= partial(\"" + name + "\", " + hv + ") %>~<%= partial(\"" + name + "\", " + hv + ") %>")
 				continue
 			}
-			sb.WriteString(opener(it) + "partial(" + callArgs(`"`+name+`"`, dataLit(it.Data, lname)) + ") %>")
+			p.nv++
+			sb.WriteString(via(it, "partial("+callArgs(`"`+name+`"`, dataLit(it.Data, lname))+")", p.nv))
 			if it.Re != nil {
 				sb.WriteString("~")
 				if it.Re.LetN != "" {
@@ -375,6 +403,11 @@ func (p *realPrinter) doc(items []Item) string {
 				call(hv)
 				sb.WriteString("~")
 				call(hv)
+				continue
+			}
+			if it.Via != "" {
+				p.nv++
+				sb.WriteString(via(it, "contentOf("+callArgs(`"`+it.N+`"`, dataLit(it.Data, ""))+")", p.nv))
 				continue
 			}
 			call(dataLit(it.Data, ""))
@@ -411,6 +444,7 @@ func (d defs) with(name string, it *Item) defs {
 type splicePrinter struct {
 	specs []*spec
 	depth int
+	nv    int
 }
 
 func (p *splicePrinter) add(s *spec) int {
@@ -443,7 +477,8 @@ func (p *splicePrinter) doc(items []Item, d defs) string {
 				sp.lay = &spec{kind: "layout", ext: it.Lay.Ext, text: p.doc(it.Lay.Body, d)}
 				lname = "layout" + it.Lay.Ext // only the presence of the key matters to the oracle
 			}
-			sb.WriteString(opener(it) + "xsplice(" + callArgs(strconv.Itoa(id), dataLit(it.Data, lname)) + ") %>")
+			p.nv++
+			sb.WriteString(via(it, "xsplice("+callArgs(strconv.Itoa(id), dataLit(it.Data, lname))+")", p.nv))
 			if it.Held || it.Re != nil {
 				// the second call: the same composition once more, with the same (fresh) data (held), or
 				// with the data of the second call, after the let that stands between the calls (re)
@@ -478,14 +513,16 @@ func (p *splicePrinter) doc(items []Item, d defs) string {
 					sp := &spec{kind: "cof"}
 					id := p.add(sp)
 					sp.text = p.doc(def.Body, d)
-					sb.WriteString(opener(it) + "xsplice(" + callArgs(strconv.Itoa(id), dataLit(it.Data, "")) + ") %>")
+					p.nv++
+					sb.WriteString(via(it, "xsplice("+callArgs(strconv.Itoa(id), dataLit(it.Data, ""))+")", p.nv))
 				} else if it.Def {
 					sp := &spec{kind: "cofdef"}
 					id := p.add(sp)
 					sp.text = p.doc(it.Body, d)
 					sb.WriteString(opener(it) + "xsplice(" + callArgs(strconv.Itoa(id), dataLit(it.Data, "")) + ") %>")
 				} else {
-					sb.WriteString(opener(it) + "xfail(" + dataLit(it.Data, "") + ") %>")
+					p.nv++
+					sb.WriteString(via(it, "xfail("+dataLit(it.Data, "")+")", p.nv))
 				}
 			}
 		case "blk":
@@ -596,8 +633,8 @@ func textualOK(ct string, items []Item) bool {
 		if len(it.Data) > 0 || it.K == "let" || it.K == "tick" {
 			return false
 		}
-		if it.Alt && it.K != "cfor" {
-			return false // evaluated but not inserted: cannot be written inline
+		if (it.Alt && it.K != "cfor") || it.Via != "" {
+			return false // evaluated but not inserted / inserted twice: cannot be written inline
 		}
 		if it.Re != nil && (len(it.Re.Data) > 0 || it.Re.LetN != "") {
 			return false
@@ -1409,12 +1446,16 @@ func (g *G) cof(sc *scope, want string) Item {
 		it.Held = true
 	case 7:
 		it.Alt = !g.textual
+	case 9, 10:
+		if !g.textual {
+			it.Via = []string{"let", "fn"}[g.intn(2, "ov")]
+		}
 	}
 	defP := 2
 	if !isKnown {
 		defP = 8 // mostly give an undefined name a default block, so that errors do not dominate
 	}
-	if g.intn(10, "odf") < defP {
+	if it.Via == "" && g.intn(10, "odf") < defP {
 		in := *sc
 		in.nest++
 		in.top = false
@@ -1491,6 +1532,9 @@ func (g *G) partial(sc *scope) []Item {
 	}
 	if !it.Held && !g.textual && g.intn(12, "pa") == 5 {
 		it.Alt = true
+	}
+	if !it.Held && !it.Alt && it.Re == nil && !g.textual {
+		it.Via = g.pick([]string{"", "", "", "", "", "", "let", "fn"}, "pv")
 	}
 	if it.Re != nil && it.Re.LetN != "" {
 		sc.names = with(sc.names, it.Re.LetN)
@@ -1769,7 +1813,8 @@ func boundaryCases() []Case {
 		return Case{Mode: "splice", CT: ct, Strings: fixedStrings, SL: fixedSL, Main: main}
 	}
 	empty := Item{K: "partial", Ext: ".html", Body: []Item{}}
-	emptyLay := Item{K: "partial", Ext: ".html", Body: []Item{}, Lay: &Lay{Ext: ".html", Body: []Item{{K: "yield"}}}}
+	emptyLay := Item{K: "partial", Ext: ".html", Body: []Item{}, Lay: &Lay{Ext: ".html", Body: []Item{tx("<L '>"), {K: "yield"}, tx("</L>"), {K: "tick"}}}}
+	emptyInLay := Item{K: "partial", Ext: ".html", Body: []Item{tx("'b'")}, Lay: &Lay{Ext: ".html", Body: []Item{tx("<L>"), part(".html"), {K: "yield"}, part(".html", Item{K: "yield"}), tx("</L>")}}}
 	onlyYield := Item{K: "partial", Ext: ".html", Body: []Item{tx("'b'")}, Lay: &Lay{Ext: ".html", Body: []Item{{K: "yield"}}}}
 	twoYields := Item{K: "partial", Ext: ".html", Body: []Item{tx("'b'"), {K: "tick"}}, Lay: &Lay{Ext: ".html", Body: []Item{{K: "yield"}, tx("|"), {K: "yield"}}}}
 	// (nil for a name the caller HAS is not generated: whether that hides the caller's binding is not stated)
@@ -1780,7 +1825,7 @@ func boundaryCases() []Case {
 	var out []Case
 	for _, ct := range []string{"text/html", "application/javascript"} {
 		out = append(out,
-			mk(ct, tx("["), empty, tx("]")), mk(ct, tx("["), emptyLay, tx("]")), mk(ct, tx("["), onlyYield, tx("]")), mk(ct, tx("["), twoYields, tx("]"), Item{K: "tick"}),
+			mk(ct, tx("["), empty, tx("]")), mk(ct, tx("["), emptyLay, tx("]"), Item{K: "tick"}), mk(ct, tx("["), emptyInLay, tx("]")), mk(ct, tx("["), onlyYield, tx("]")), mk(ct, tx("["), twoYields, tx("]"), Item{K: "tick"}),
 			mk(ct, nilData, em("g0")), mk(ct, nilRead), mk(ct, tx("["), silent, tx("]"), Item{K: "tick"}),
 			mk(ct), mk(ct, empty),
 			mk(ct, Item{K: "cfor", N: "n1_0", Body: []Item{}}, tx("["), Item{K: "cof", N: "n1_0"}, tx("]")),
@@ -1788,6 +1833,17 @@ func boundaryCases() []Case {
 			mk(ct, tx("["), Item{K: "cof", N: "zz", Alt: true}, tx("]")),
 			mk(ct, Item{K: "cfor", N: "n1_0", Body: []Item{tx("S"), {K: "tick"}}}, tx("["), Item{K: "cof", N: "n1_0", Alt: true}, tx("]"), Item{K: "tick"}),
 		)
+		for _, v := range []string{"let", "fn"} {
+			pv := Item{K: "partial", Ext: ".html", Via: v, Data: []KV{ref("g0", "v1")}, Body: []Item{tx("<p '>"), em("g0"), {K: "tick"}}}
+			pl := pv
+			pl.Lay = &Lay{Ext: ".html", Body: []Item{tx("<L '>"), {K: "yield"}, tx("</L>")}}
+			out = append(out,
+				mk(ct, Item{K: "for", N: "sl", V: "v1", Body: []Item{pv}}, Item{K: "tick"}, em("g0")),
+				mk(ct, Item{K: "for", N: "sl", V: "v1", Body: []Item{pl}}, Item{K: "tick"}),
+				mk(ct, Item{K: "cfor", N: "n1_0", Body: []Item{tx("<A '>"), c0guard, {K: "tick"}}},
+					Item{K: "for", N: "sl", V: "v1", Body: []Item{{K: "cof", N: "n1_0", Via: v, Data: []KV{ref("c0", "v1")}}}}, Item{K: "cof", N: "n1_0", Via: v}, Item{K: "tick"}),
+				mk(ct, Item{K: "cof", N: "zz", Via: v}))
+		}
 		for _, n := range []string{"", " ", "N1.1", " n1: 2 ", "contentFor:n1_0", "a b"} {
 			other := "n1_0"
 			out = append(out, mk(ct, Item{K: "cfor", N: n, Body: []Item{tx("<N>"), em("s0")}}, Item{K: "cfor", N: other, Body: []Item{tx("<O>")}},
@@ -1817,7 +1873,7 @@ func bigCase(kind int, held bool) Case {
 
 // ---- the test --------------------------------------------------------------------
 
-const rule = "A case is a tree of documents: main template, partial bodies (nesting <= 3), layouts (a layout may wrap its yield in a partial that has a layout), contentFor blocks, contentOf default blocks, blocks of recording Go block helpers. Items: literal text (HTML/JS specials), <%= %> of context strings with HTML/JS specials, of loop variables, of data keys, a tick() counter (detects double / missing / cached evaluation), for loops, if/else, let (partials: must not leak; in the main document also of the names stored blocks and layouts read, between definition and use), partial(name, data[, layout]) with name = [directory part incl. dots, upper case, './', '_'] p<N> [extension in {.js,.html,.md,none,.js.html,.html.js}] and data keys shadowing caller variables (g*) or fresh (f*), values strings / ints / caller variables / nil (nil only for names the caller lacks); in a quarter of the cases the data map, layout entry included, is HELD in a variable and used by TWO calls; in a quarter the same partial NAME is called a second time with ANOTHER data map, optionally after a let of the caller in between (keys not bound by every call are read guarded); 0-3 contentFor names per document (not only identifiers: upper case, dot, spaces, colon, the empty name) incl. redefinition, contentFor also in an output tag, contentOf before/after the definition, with/without data (c*, shadowing s0), data held in a variable and used by two calls, with default block, undefined name; after a contentOf with data the CALLER reads a data key guarded (must be unset); block helpers that render their block once / twice / never / in a child scope with data (BlockWith) / take an argument / are a method of a context value; partial, contentOf and block helper calls also in SILENT tags (evaluated once, nothing inserted); empty documents and blocks. contentType in {unset,text/html,application/javascript,text/javascript, the same with '; charset=..' parameters, text/plain}. ORACLE (metamorphic): every composition is replaced by an oracle helper that renders the composed-in text itself with plush.Render in a child of the caller's scope extended with data and leaves a placeholder which is substituted textually, unescaped, exactly once; JSEscapeString is applied by the oracle once per partial (and layout) whose name has a last extension other than .js / none under a JavaScript media type; layouts get the result as yield; an undefined contentOf without default must fail. For data-free cases additionally the TEXTUAL inline: the partial/layout/block source pasted in place of the tag must render the same. Whole outputs byte for byte, errors as error/no-error, plus the list of strings the block helpers received. (E) config matrix ct x ext x layout mode x layout ext x 11 bodies (incl. a call site in a loop fed from the loop variable, a name called twice with different data) x 4 data maps; (E) name spellings x content types with parameters x layout spellings; (E) block helper variants x tag opener x bodies x places; (E) boundaries (empty bodies, yield-only / two-yield layouts, nil data, odd content names) and one call site executed 1100 times; (E) all sequences of 16 content operations up to length 3 (thorough 4) x 3 placements; (R) random trees, random data-free trees with textual inlining, random trees rendered TWICE with plush.CacheEnabled on (second render on the cached templates). Not asserted (never generated): what a layout sees of the partial's data or contentFor names, contentFor inside blocks/loops, scope of a stored block other than names nobody rebinds below the main document, visibility of the data map in a contentOf default block, let inside blocks, nil bound to a name the caller has, names that differ only by surrounding spaces. Non-trivial = at least one composition was executed and rendered non-empty text, or the case must fail. Distinct by case."
+const rule = "A case is a tree of documents: main template, partial bodies (nesting <= 3), layouts (a layout may wrap its yield in a partial that has a layout), contentFor blocks, contentOf default blocks, blocks of recording Go block helpers. Items: literal text (HTML/JS specials), <%= %> of context strings with HTML/JS specials, of loop variables, of data keys, a tick() counter (detects double / missing / cached evaluation), for loops, if/else, let (partials: must not leak; in the main document also of the names stored blocks and layouts read, between definition and use), partial(name, data[, layout]) with name = [directory part incl. dots, upper case, './', '_'] p<N> [extension in {.js,.html,.md,none,.js.html,.html.js}] and data keys shadowing caller variables (g*) or fresh (f*), values strings / ints / caller variables / nil (nil only for names the caller lacks); in a quarter of the cases the data map, layout entry included, is HELD in a variable and used by TWO calls; in a quarter the same partial NAME is called a second time with ANOTHER data map, optionally after a let of the caller in between (keys not bound by every call are read guarded); 0-3 contentFor names per document (not only identifiers: upper case, dot, spaces, colon, the empty name) incl. redefinition, contentFor also in an output tag, contentOf before/after the definition, with/without data (c*, shadowing s0), data held in a variable and used by two calls, with default block, undefined name; after a contentOf with data the CALLER reads a data key guarded (must be unset); block helpers that render their block once / twice / never / in a child scope with data (BlockWith) / take an argument / are a method of a context value; partial, contentOf and block helper calls also in SILENT tags (evaluated once, nothing inserted); partial and contentOf calls also written as <% let r = CALL %><%= r %>~<%= r %> (evaluated once, inserted twice) and as the result of a function defined and called on the spot; empty documents and blocks. contentType in {unset,text/html,application/javascript,text/javascript, the same with '; charset=..' parameters, text/plain}. ORACLE (metamorphic): every composition is replaced by an oracle helper that renders the composed-in text itself with plush.Render in a child of the caller's scope extended with data and leaves a placeholder which is substituted textually, unescaped, exactly once; JSEscapeString is applied by the oracle once per partial (and layout) whose name has a last extension other than .js / none under a JavaScript media type; layouts get the result as yield; an undefined contentOf without default must fail. For data-free cases additionally the TEXTUAL inline: the partial/layout/block source pasted in place of the tag must render the same. Whole outputs byte for byte, errors as error/no-error, plus the list of strings the block helpers received. (E) config matrix ct x ext x layout mode x layout ext x 11 bodies (incl. a call site in a loop fed from the loop variable, a name called twice with different data) x 4 data maps; (E) name spellings x content types with parameters x layout spellings; (E) block helper variants x tag opener x bodies x places; (E) boundaries (empty bodies, yield-only / two-yield layouts, nil data, odd content names) and one call site executed 1100 times; (E) all sequences of 16 content operations up to length 3 (thorough 4) x 3 placements; (R) random trees, random data-free trees with textual inlining, random trees rendered TWICE with plush.CacheEnabled on (second render on the cached templates). Not asserted (never generated): what a layout sees of the partial's data or contentFor names, contentFor inside blocks/loops, scope of a stored block other than names nobody rebinds below the main document, visibility of the data map in a contentOf default block, let inside blocks, nil bound to a name the caller has, names that differ only by surrounding spaces. Non-trivial = at least one composition was executed and rendered non-empty text, or the case must fail. Distinct by case."
 
 func setup(t *testing.T) *vk.Run {
 	r := vk.Start(t, "C17", rule,
@@ -2004,6 +2060,25 @@ func TestShow(t *testing.T) {
 				s, err := help.Block()
 				return template.HTML("[" + s + "]"), err
 			}
+			d["rec2"] = func(help plush.HelperContext) (template.HTML, error) {
+				a, _ := help.Block()
+				b, err := help.Block()
+				return template.HTML("[" + a + "|" + b + "]"), err
+			}
+			d["rec0"] = func(help plush.HelperContext) (template.HTML, error) { return "[]", nil }
+			d["recw"] = func(data map[string]interface{}, help plush.HelperContext) (template.HTML, error) {
+				ctx := help.New()
+				for k, v := range data {
+					ctx.Set(k, v)
+				}
+				s, err := help.BlockWith(ctx)
+				return template.HTML("[" + s + "]"), err
+			}
+			d["reca"] = func(label string, help plush.HelperContext) (template.HTML, error) {
+				s, err := help.Block()
+				return template.HTML("[" + label + ":" + s + "]"), err
+			}
+			d["hx"] = methRec{rec: new([]string)}
 			return d
 		}()))
 		fmt.Printf("  => %q %v\n", out, err)
